@@ -87,6 +87,22 @@ def write_unreplayed(pid: str, name: str, results, why: str) -> str:
     return path
 
 
+def _explore_one(key):
+    from pyvc.source import SourceIndex as _SI
+    return verify_function(_SI(), REGISTRY[key], REGISTRY)
+
+
+def explore_all(index, todo):
+    """path exploration of every function under contract, in parallel (forked workers share the loaded contracts)"""
+    import multiprocessing as mp
+    keys = [c.key or c.target for c in todo]
+    if len(keys) <= 1 or os.environ.get("PYVC_SERIAL"):
+        return [verify_function(index, c, REGISTRY) for c in todo]
+    ctx = mp.get_context("fork")
+    with ctx.Pool(min(len(keys), os.cpu_count() or 4)) as pool:
+        return pool.map(_explore_one, keys, chunksize=1)
+
+
 def proof_part(pid: str, tier: str, plan: dict, out: dict) -> int:
     """returns worst exit code of the proof part and fills `out`"""
     for m in plan.get("contracts", []):
@@ -100,8 +116,8 @@ def proof_part(pid: str, tier: str, plan: dict, out: dict) -> int:
     all_vcs = []
     code = 0
     by_key = {}
-    for c in todo:
-        rep = verify_function(index, c, REGISTRY)
+    reports = explore_all(index, todo)
+    for c, rep in zip(todo, reports):
         by_key[c.key or c.target] = c
         functions.append({
             "function": c.target, "contract": type(c).__name__, "float_model": c.float_mode, "source_sha256_16": rep.sha,
